@@ -1296,7 +1296,24 @@ def inferred_dtype_stores(rep, S, f, rule="DTYPE.inferred-target"):
                 hit = True
                 rep.bad(rule, fwhere(f, st.node), "the value is stored into `%s`, whose dtype numpy inferred from the data it was built from (no dtype=float): when that data "
                         "is integer- or boolean-valued the stored real value is truncated silently" % fmt(r)[:80])
+        # a working array shaped like the caller's weight matrix but given an integer / boolean dtype explicitly, receiving that matrix's own entries:
+        # real weights are truncated (0.4 -> 0: the edge is gone)
+        if isinstance(r, tuple) and len(r) == 4 and r[0] == "ext" and r[1] in ("numpy.zeros_like", "numpy.empty_like", "numpy.full_like", "numpy.ones_like") and r[2] and \
+                r[2][0][0] == "param" and r[2][0][1] in WEIGHT_PARAMS and not f.name.startswith("_"):
+            dt = dict((k, v) for k, v in r[3] if k != "$draw").get("dtype")
+            src = r[2][0]
+            v_ = st.value
+            from_src = isinstance(v_, tuple) and ((v_[0] == "sub" and v_[1] == src) or v_ == src)
+            if dt is not None and dt not in FLOAT_TYPES and dt in NARROW_INT_TYPES and from_src:
+                hit = True
+                rep.bad("DTYPE.narrow-target", fwhere(f, st.node), "entries of the caller's matrix `%s` are stored into `%s`: a copy with an integer / boolean dtype truncates real weights "
+                        "(0.4 becomes 0 and the edge disappears, -1.7 becomes -1)" % (src[1], fmt(r)[:60]))
     return n, hit
+
+
+WEIGHT_PARAMS = {"A", "G", "P", "W", "B", "pdag", "graph", "cpdag", "dag"}
+NARROW_INT_TYPES = {("extref", "int"), ("extref", "bool"), ("extref", "numpy.int64"), ("extref", "numpy.int32"), ("extref", "numpy.intp"), ("extref", "numpy.int_"), ("extref", "numpy.bool_"),
+                    ("extref", "numpy.uint8"), ("extref", "numpy.int8"), ("extref", "numpy.byte"), ("const", "int"), ("const", "bool")}
 
 
 def dtype_store_sweep(rep, prog, interps, rule="DTYPE.inferred-target"):
